@@ -209,7 +209,7 @@ PROPS = {
     "C13": {
         "module": "Sfv.Props.C13",
         "tables": ["tables_schema_tags", "tables_header", "tables_schema_arms"],
-        "suites": [schemas(4, 20)],
+        "suites": [schemas(12, 40)],
         "oracle": ["C13"],
     },
     "C06": {
